@@ -27,6 +27,7 @@ F32_EXP_MAX = 88.72          # torch.exp overflows binary32 above 88.7228...
 # digits long before the clamp becomes active (sigmoid(20) in float64: 5e-8)
 TOL_SPEC = {"float64": 1e-6, "float32": 1e-3}
 SIG_CLAMP = "C19.relaxed.csample_clamped_probs"
+SIG_STNAN = "C19.straight_through.nan_at_neg_inf_logit"
 
 
 def _dy(rng, lo, hi, den):
@@ -250,8 +251,15 @@ class C19(PropertyCheck):
             "+-100 x draws u, v from a grid that contains 0 and 1 x float64/float32 x validate_args; "
             "GumbelOneHotCategorical with probs and logits, one-hot / near-one-hot / unnormalised probs and "
             "logits spread by 20..100, every conditioning class, draws next to 0 and 1, both dtypes; "
-            "Relax/ST estimators at p = k/16 for every k in 0..16 and (combination logic) at boundary "
-            "parameters, Bernoulli and categorical. SRSWOR: all (total, given) <= 6, every forced/free "
+            "zero-probability classes handed over as logits = -inf (categorical relaxation, every conditioning "
+            "class; categorical estimator families with the support as sample space; IS with a dominated "
+            "density; IMH); both relaxed distributions as TENSORS (parameter shapes (), (K,), (N,K) / "
+            "(V,), (B,V), (B1,B2,V), probs= and logits= constructions, expand, sample shapes), every entry / "
+            "row against the one-variable model and against a python oracle of what probs / logits denote; "
+            "csample(b, v) against rsample at the uniform point of the region of b; "
+            "Relax/ST estimators at p = k/16 for every k in 0..16, both constructions, parameter tensors "
+            "of shape () .. (2,2), hand-written and REBAR control variates of the relaxed sample, and "
+            "(combination logic) at boundary parameters, Bernoulli and categorical. SRSWOR: all (total, given) <= 6, every forced/free "
             "outcome pattern, genuine seeds up to total = 64 (257 thorough). "
             "binomial: every (n, k) with n <= 66 in both branches. non-trivial: sample space of >= 4 points "
             "(estimators), >= 1 free draw (SRSWOR), n >= 2 (combinatorics); distinct by the case")
@@ -264,8 +272,14 @@ class C19(PropertyCheck):
         "probabilities handed to the Lean model are torch's own float64 values as exact rationals; "
         "self.logits / self.probs of the relaxed distributions (probs_to_logits, log_softmax) are taken from "
         "torch, the clamp_probs inside rsample / csample is part of the model",
-        "estimator families never carry a probability of exactly 0 (the theorems assume P(b) != 0; torch's "
-        "clamp_probs cuts the gradient of log P there)",
+        "estimator families never carry a probability of exactly 0 through `probs=` (the theorems assume "
+        "P(b) != 0; torch's clamp_probs cuts the gradient of log P there); a class of logit -inf is outside "
+        "the sample space (never drawn, P = P' = 0) and the sample space handed to the model is the support",
+        "a Bernoulli / LogisticBernoulli logit is finite (torch's own Bernoulli.log_prob is NaN at an "
+        "infinite logit; arg_constraints say `real`); a categorical logit may be -inf",
+        "where a class has logit -inf the relaxed distribution has no density (z_k = -inf almost surely): the "
+        "factorisation clause is evaluated in the extended reals at zcond only, log_prob / clog_prob at z "
+        "are compared with the model (both NaN) but not judged",
     ]
     exhaustive = {"quick": False, "thorough": False}
     quick_budget_s = 200
@@ -577,7 +591,13 @@ class C19(PropertyCheck):
                        "coord": rng.randrange(V),
                        "us": [[fs(draw()) for _ in range(V)] for _ in range(N)],
                        "vs": [[fs(draw()) for _ in range(V)] for _ in range(N)], "f": _table(rng, V),
+                       "cvkind": rng.choice(["smooth", "smooth", "rebar"]),
                        "cv": [fs(_dy(rng, -2, 2, 4)), fs(_dy(rng, -2, 2, 4)), fs(_dy(rng, 1, 3, 4))]}
+        # malformed constructions: the documented ValueError
+        for cls in ("LogisticBernoulli", "GumbelOneHotCategorical"):
+            for how in ("neither", "both", "scalar"):
+                if not (cls == "LogisticBernoulli" and how == "scalar"):
+                    yield {"kind": "relaxed_ctor", "cls": cls, "how": how}
 
     # ================================================================ implementation
     def run_impl(self, case):
@@ -1274,8 +1294,8 @@ class C19(PropertyCheck):
         with fam.torch_patched(rand=rand, rand_like=lambda *a, **k: Vv.clone()):
             z = d.rsample(sample)
             b = d.threshold(z)
-            cols = {"z": fl(z), "b": fl(b), "logprob": fl(d.log_prob(z)), "tlog": fl(d.tlog_prob(b)),
-                    "clog": fl(d.clog_prob(z, b))}
+            cols = {"z": fl(z), "b": fl(b), "b_st": fl(d.threshold(z, True)), "logprob": fl(d.log_prob(z)),
+                    "tlog": fl(d.tlog_prob(b)), "clog": fl(d.clog_prob(z, b))}
             shapes = {"z": list(z.shape), "b": list(b.shape), "tlog": list(d.tlog_prob(b).shape),
                       "logprob": list(d.log_prob(z).shape), "rand": asked[0] if asked else None}
             batch = list(d.batch_shape)
@@ -1351,6 +1371,12 @@ class C19(PropertyCheck):
     @staticmethod
     def _finite(x):
         return x is not None and x not in SPECIALS
+
+    def _st_same(self, b_st, b, z, tol):
+        """threshold(z, True) = (b + z) - z.detach() is b up to the rounding of b + z"""
+        if not (self._finite(b_st) and self._finite(b) and self._finite(z)):
+            return b_st == b
+        return abs(F(b_st) - F(b)) <= Fr(tol) * max(1, abs(F(z)))
 
     def _lb_overflow(self, case, impl, zkey):
         """the specific float32 defect (finding C19.logistic_bernoulli.float32_exp_overflow): log_prob /
@@ -1449,6 +1475,9 @@ class C19(PropertyCheck):
             if c["clog_other"] != "-inf":
                 sig = osig if self._lb_overflow(case, impl, f"c{bb}") and not self._finite(c["clog_other"]) else None
                 fails.append((f"{head}: clog_prob(zcond, 1-b) = {c['clog_other']}, expected -inf", sig))
+        if "b_st" in impl and not self._st_same(impl["b_st"], impl["b"], impl["z"], tol):
+            fails.append((f"{head}: threshold(z, straight_through=True) = {impl['b_st']} differs in value from "
+                          f"threshold(z) = {impl['b']}", None))
         if self._finite(impl["z"]):
             why = self._factor_fail(tol, impl["logprob"], impl["tlog"], impl["clog"])
             if why:
@@ -1569,7 +1598,7 @@ class C19(PropertyCheck):
         for n, e in enumerate(impl["elems"]):
             m = model["elems"][n] if model is not None and n < len(model.get("elems", [])) else None
             for what, sig in self._pred_bern(self._bern_nd_elem(case, n), e, m):
-                key = (what.split(":", 2)[1][:40] if what.count(":") >= 2 else what[:40], sig)
+                key = (what.split("):", 1)[-1][:40], sig)
                 if key in seen:
                     continue          # one report per kind of failure
                 seen.add(key)
@@ -1612,7 +1641,8 @@ class C19(PropertyCheck):
             zc = d.csample(bk)
             other = torch.roll(bk, 1, -1)
             ex = lambda t: t.expand(full + [V])
-            cols = {"z": fr(z), "b": fr(b), "logprob": fl(d.log_prob(z)), "tlog": fl(d.tlog_prob(b)),
+            cols = {"z": fr(z), "b": fr(b), "b_st": fr(d.threshold(z, True)),
+                    "logprob": fl(d.log_prob(z)), "tlog": fl(d.tlog_prob(b)),
                     "clog": fl(d.clog_prob(z, b)), "zc": fr(zc), "thr_zc": fr(d.threshold(zc)),
                     "clog_zc": fl(d.clog_prob(zc, bk)), "tlog_k": fl(d.tlog_prob(bk)),
                     "logprob_zc": fl(d.log_prob(zc)), "clog_other": fl(d.clog_prob(zc, other)),
@@ -1785,10 +1815,95 @@ class C19(PropertyCheck):
                 fails.append((f"{head}: factorisation at z = rsample(u), b = H(z): {why}", None))
         if impl["clog_other"] != "-inf":
             fails.append((f"{head}: clog_prob(zcond, other) = {impl['clog_other']} is not -inf", asig))
+        if "b_st" in impl and not all(self._st_same(y, x, zz, tol)
+                                      for x, y, zz in zip(impl["b"], impl["b_st"], impl["z"])):
+            # the specific defect: b + z - z.detach() is NaN exactly where z = -inf (class with logit -inf)
+            known = all((y == "nan" and zr) or self._st_same(y, x, zz, tol)
+                        for x, y, zz, zr in zip(impl["b"], impl["b_st"], impl["z"], zero))
+            fails.append((f"{head}: threshold(z, straight_through=True) = {impl['b_st']} differs in value from "
+                          f"threshold(z) = {impl['b']} (z = {impl['z']})", SIG_STNAN if known else None))
         if sum(F(x) for x in impl["b"]) != 1 or any(F(x) not in (0, 1) for x in impl["b"]):
             fails.append((f"{head}: threshold is not one-hot", None))
         elif any(zr and F(x) == 1 for x, zr in zip(impl["b"], zero)):
             fails.append((f"{head}: threshold(rsample) = {impl['b']} selects a class of probability zero", None))
+        return fails
+
+    # ---------------------------------------------------------------- relaxed categorical as a tensor
+    def _gumbel_nd_dist(self, case):
+        import torch
+        from pydrobert.torch.distributions import GumbelOneHotCategorical
+        dt = self._tdtype(case)
+        t = torch.tensor([fam.fl(x) for x in case["values"]], dtype=dt).reshape(case["shape"])
+        d = GumbelOneHotCategorical(**{case["param"]: t}, validate_args=True if case.get("validate") else None)
+        if case.get("expand"):
+            d = d.expand(list(case["expand"]) + list(case["shape"][:-1]))
+        return d
+
+    def _gumbel_nd_elem(self, case, n):
+        """the one-row case that row n of the tensors is an instance of"""
+        _, nb, nB, _ = self._nd_layout(case, 1)
+        V = case["shape"][-1]
+        r = (n % nB) % nb
+        return {"kind": "gumbel", "param": case["param"], "theta": case["values"][r * V: (r + 1) * V],
+                "dtype": case["dtype"], "us": case["us"][n], "vs": case["vs"][n], "k": case["ks"][n],
+                "validate": case.get("validate")}
+
+    def _impl_gumbel_nd(self, case):
+        import torch
+        d = self._gumbel_nd_dist(case)
+        dt = self._tdtype(case)
+        batch, nb, nB, n = self._nd_layout(case, 1)
+        V = case["shape"][-1]
+        full = list(case.get("sample") or []) + batch + [V]
+        U = torch.tensor([[float(F(x)) for x in r] for r in case["us"]], dtype=dt).reshape(full)
+        Vv = torch.tensor([[float(F(x)) for x in r] for r in case["vs"]], dtype=dt).reshape(full)
+        elems, info = self._g_observe(d, case["dtype"], U, Vv, tuple(case.get("sample") or []), case["ks"])
+        fl = lambda t: [fs(x) for x in t.reshape(-1).tolist()]
+        return {"elems": elems, **info, "dprobs": fl(d.probs), "dlogits": fl(d.logits)}
+
+    def _req_gumbel_nd(self, case):
+        d = self._gumbel_nd_dist(case)
+        dtn = case["dtype"]
+        fl = lambda t: [fs(x) for x in t.reshape(-1).tolist()]
+        rr = lambda rows: [[fs(self._rnd(x, dtn)) for x in r] for r in rows]
+        return {"op": "c19.gumbel_nd", "case": {
+            "ctor": case["param"], "shape": case["shape"], "expand": case.get("expand") or [],
+            "data": [fs(self._rnd(x, dtn)) for x in case["values"]], "eps": fs(EPS[dtn]),
+            "logits": fl(d.logits), "probs": fl(d.probs), "us": rr(case["us"]), "vs": rr(case["vs"]),
+            "ks": case["ks"]}}
+
+    def _cmp_gumbel_nd(self, case, impl, model):
+        dtn = case["dtype"]
+        out = self._cmp_params(impl, model, dtn)
+        if len(impl["elems"]) != len(model["elems"]):
+            return out + [f"{len(impl['elems'])} rows, model {len(model['elems'])}"]
+        for n, (a, b) in enumerate(zip(impl["elems"], model["elems"])):
+            out += [f"row {n}: {m}" for m in self._cmp_gumbel(self._gumbel_nd_elem(case, n), a, b)]
+        tol = TOL_G[dtn]
+        for key, got in (("zT", [e["z"] for e in impl["elems"]]), ("zcT", [e["zc"] for e in impl["elems"]])):
+            bad = [i for i, (a, b) in enumerate(zip(got, model[key]))
+                   if not all(self._fclose(x, y, tol) for x, y in zip(a, b))]
+            if bad or len(got) != len(model[key]):
+                out.append(f"{key}: rows {bad[:4]} differ")
+        got = [e["tlog_k"] for e in impl["elems"]]
+        if not all(self._fclose(a, b, tol) for a, b in zip(got, model["tlogT"])):
+            out.append(f"tlogT: impl={got[:4]}.. model={model['tlogT'][:4]}..")
+        return out[:6]
+
+    def _pred_gumbel_nd(self, case, impl, model):
+        V = case["shape"][-1]
+        head = (f"GumbelOneHotCategorical({case['param']}= tensor of shape {case['shape']}"
+                f"{', expand ' + str(case['expand']) if case.get('expand') else ''}, {case['dtype']})")
+        fails = self._pred_shapes(head, case, impl, [V])
+        seen = set()
+        for n, e in enumerate(impl["elems"]):
+            m = model["elems"][n] if model is not None and n < len(model.get("elems", [])) else None
+            for what, sig in self._pred_gumbel(self._gumbel_nd_elem(case, n), e, m):
+                key = (what.split("):", 1)[-1][:40], sig)
+                if key in seen:
+                    continue          # one report per kind of failure
+                seen.add(key)
+                fails.append((f"row {n} of {head}: {what}", sig))
         return fails
 
     # ---------------------------------------------------------------- relaxation-based estimators
@@ -1807,7 +1922,10 @@ class C19(PropertyCheck):
         ks = case["ks"]
         n = len(ks)
         probs = torch.tensor([k / 16 for k in ks], dtype=torch.float64)
-        d = LogisticBernoulli(probs=probs)
+        if case.get("param", "probs") == "logits":      # ks in 1..15
+            d = LogisticBernoulli(logits=torch.tensor([math.log(k / (16 - k)) for k in ks], dtype=torch.float64))
+        else:
+            d = LogisticBernoulli(probs=probs)
         g = [(j + 0.5) / 16 for j in range(16)]
         U = torch.tensor(list(itertools.product(g, repeat=n)), dtype=torch.float64)
         t = torch.tensor([float(F(x)) for x in case["f"]], dtype=torch.float64)
@@ -1840,32 +1958,56 @@ class C19(PropertyCheck):
         return [(f"StraightThroughEstimator: grid mean {x} != E f = {float(ex)}", None)
                 for x in impl["v"] if not close(x, ex)]
 
+    @staticmethod
+    def _rv_norm(case):
+        """-> (param, shape, ks, f per entry): cases written before the tensor form carry one `k`"""
+        if "ks" in case:
+            return case.get("param", "probs"), case["shape"], case["ks"], case["f"]
+        return "probs", [1], [case["k"]], [case["f"]]
+
     def _impl_relax_value(self, case):
         """u on the 16-point midpoint grid; for each u every v of a grid matched to b = H(z(u)) (so that
         csample(b, v) runs over exactly the u-grid points of the region of b): the mean over all (u, v)
-        of the returned value must be E f."""
+        of the returned value must be E f, for every entry of a parameter tensor of any shape, whichever
+        construction was used, and for any control variate of the relaxed sample."""
         import torch
         from pydrobert.torch.distributions import LogisticBernoulli
         from pydrobert.torch.estimators import RelaxEstimator
-        k = case["k"]
-        d = LogisticBernoulli(probs=torch.tensor([k / 16], dtype=torch.float64, requires_grad=True))
-        R = max(k, 1) * max(16 - k, 1)        # p = 0 / p = 1: only one region, 16 conditional draws each
+        par, shape, ks, fs_ = self._rv_norm(case)
+        n = len(ks)
+        if par == "logits":
+            t = torch.tensor([math.log(k / (16 - k)) for k in ks], dtype=torch.float64)
+        else:
+            t = torch.tensor([k / 16 for k in ks], dtype=torch.float64)
+        d = LogisticBernoulli(**{par: t.reshape(shape).requires_grad_(True)})
+        # p = 0 / p = 1: only one region, 16 conditional draws each
+        R = 1
+        for k in ks:
+            R = math.lcm(R, max(k, 1) * max(16 - k, 1))
         us, vs = [], []
         for j in range(16):
             u = (j + 0.5) / 16
-            one = j >= 16 - k
-            m = k if one else 16 - k
+            ms = [(k if j >= 16 - k else 16 - k) for k in ks]
             for r in range(R):
-                us.append(u)
-                vs.append(((r % m) + 0.5) / m)
-        U = torch.tensor(us, dtype=torch.float64).unsqueeze(-1)
-        Vv = torch.tensor(vs, dtype=torch.float64).unsqueeze(-1)
-        t = torch.tensor([float(F(x)) for x in case["f"]], dtype=torch.float64)
-        func = lambda b: t[b.detach().round().long()]
-        cv = self._cvfun(case["cv"])
+                us.append([u] * n)
+                vs.append([((r % m) + 0.5) / m for m in ms])
+        full = [len(us)] + list(shape)
+        U = torch.tensor(us, dtype=torch.float64).reshape(full)
+        Vv = torch.tensor(vs, dtype=torch.float64).reshape(full)
+        f0 = torch.tensor([float(F(x[0])) for x in fs_], dtype=torch.float64).reshape(shape)
+        f1 = torch.tensor([float(F(x[1])) for x in fs_], dtype=torch.float64).reshape(shape)
+        func = lambda b: f0 + (f1 - f0) * b            # affine: also accepts relaxed values (REBAR)
+        wv = (torch.arange(1, n + 1, dtype=torch.float64) / n).reshape(shape)
+        if case.get("cvkind") == "rebar":
+            from pydrobert.torch.modules import LogisticBernoulliRebarControlVariate
+            a, _, tau = [float(F(x)) for x in case["cv"]]
+            cv = LogisticBernoulliRebarControlVariate(func, tau, a)
+        else:
+            base = self._cvfun(case["cv"])
+            cv = lambda z: base(z) * wv
         with fam.torch_patched(rand=lambda *a, **kk: U.clone(), rand_like=lambda *a, **kk: Vv.clone()):
             v = RelaxEstimator(d, func, U.shape[0], cv)()
-        return {"v": fs(v.item())}
+        return {"v": [fs(x) for x in v.reshape(-1).tolist()], "shape": list(v.shape), "samples": U.shape[0]}
 
     def _req_relax_value(self, case):
         return None
@@ -1874,10 +2016,20 @@ class C19(PropertyCheck):
         return []
 
     def _pred_relax_value(self, case, impl, model):
-        p = Fr(case["k"], 16)
-        ex = (1 - p) * F(case["f"][0]) + p * F(case["f"][1])
-        return [] if close(impl["v"], ex, 1e-8) else [
-            (f"RelaxEstimator: mean value over the (u, v) grid {float(F(impl['v']))} != E f = {float(ex)}", None)]
+        par, shape, ks, fs_ = self._rv_norm(case)
+        fails = []
+        if impl["shape"] != list(shape):
+            fails.append((f"RelaxEstimator over LogisticBernoulli({par}= tensor of shape {shape}) returns shape "
+                          f"{impl['shape']}", None))
+            return fails
+        for i, (k, f, v) in enumerate(zip(ks, fs_, impl["v"])):
+            p = Fr(k, 16)
+            ex = (1 - p) * F(f[0]) + p * F(f[1])
+            if not close(v, ex, 1e-8):
+                fails.append((f"RelaxEstimator over LogisticBernoulli({par}=.., shape {shape}), entry {i} "
+                              f"(p = {k}/16), {case.get('cvkind', 'smooth')} control variate: mean value over the "
+                              f"(u, v) grid {float(F(v)) if v not in SPECIALS else v} != E f = {float(ex)}", None))
+        return fails
 
     def _relax_pieces(self, case):
         """the per-sample quantities RelaxEstimator combines, each with d/dparameter, obtained from the
@@ -1888,7 +2040,7 @@ class C19(PropertyCheck):
         par = case.get("param", "logits")
         if case.get("dist") == "gumbel":
             V = len(case["theta"])
-            th = torch.tensor([float(F(x)) for x in case["theta"]], dtype=torch.float64, requires_grad=True)
+            th = torch.tensor([fam.fl(x) for x in case["theta"]], dtype=torch.float64, requires_grad=True)
             d = GumbelOneHotCategorical(**{par: th})
             U = torch.tensor([[float(F(x)) for x in r] for r in case["us"]], dtype=torch.float64)
             Vv = torch.tensor([[float(F(x)) for x in r] for r in case["vs"]], dtype=torch.float64)
@@ -1897,6 +2049,9 @@ class C19(PropertyCheck):
             a, bb, tau = [float(F(x)) for x in case["cv"]]
             wv = torch.arange(1, V + 1, dtype=torch.float64) / V
             cv = lambda z: (a * torch.sigmoid(z / tau) * wv).sum(-1) + bb * torch.tanh(z / 4).sum(-1)
+            if case.get("cvkind") == "rebar":       # the library's own control variate: eta f(softmax(z / temp))
+                from pydrobert.torch.modules import GumbelOneHotCategoricalRebarControlVariate
+                cv = GumbelOneHotCategoricalRebarControlVariate(lambda x: (x * t).sum(-1), tau, a)
             return th, d, U, Vv, func, cv
         lg = torch.tensor([float(F(case["value"] if "value" in case else case["logit"]))],
                           dtype=torch.float64, requires_grad=True)
@@ -1947,12 +2102,21 @@ class C19(PropertyCheck):
             return None          # a non-finite piece: nothing to combine; the predicate reports it
         return {"op": "c19.relax", "case": {"samples": samples}}
 
+    def _st_nan_known(self, case, impl):
+        """the specific defect behind finding C19.straight_through.nan_at_neg_inf_logit: with a class of
+        logit -inf, threshold(z, straight_through=True) is NaN in that coordinate, so a table integrand
+        (argmax) reads the first such class for every sample and a smooth one returns NaN"""
+        if case.get("dist") != "gumbel" or case.get("param") != "logits":
+            return False
+        zero = [fam.is_ninf(x) for x in case["theta"]]
+        return any(zero) and (impl["st"] == "nan" or close(impl["st"], F(case["f"][zero.index(True)])))
+
     def _cmp_relax_comb(self, case, impl, model):
         out = []
         for j, nm in enumerate(("value", "gradient")):
             if not close(impl["relax"][j], model["relax"][j], 1e-8):
                 out.append(f"RelaxEstimator {nm}: impl={impl['relax'][j]} model={model['relax'][j]}")
-        if not close(impl["st"], model["st"][0]):
+        if not close(impl["st"], model["st"][0]) and not self._st_nan_known(case, impl):
             out.append(f"StraightThroughEstimator value: impl={impl['st']} model={model['st'][0]}")
         return out
 
@@ -1960,13 +2124,68 @@ class C19(PropertyCheck):
         fails = []
         head = (f"{'GumbelOneHotCategorical' if case.get('dist') == 'gumbel' else 'LogisticBernoulli'}"
                 f"({case.get('param', 'logits')}={case.get('theta', case.get('value', case.get('logit')))})")
-        if not all(self._finite(x) for x in impl["z"] + impl["zc"]):
+        # (a class whose logit is -inf has the relaxed value -inf; every other coordinate is real)
+        zero = [False]
+        if case.get("dist") == "gumbel":
+            zero = [case.get("param") == "logits" and fam.is_ninf(x) for x in case["theta"]]
+        z_ok = all((x == "-inf") if zero[j % len(zero)] else self._finite(x) for j, x in enumerate(impl["z"]))
+        if not z_ok or not all(self._finite(x) for x in impl["zc"]):
             fails.append((f"{head}: relaxed samples inside RelaxEstimator are not real: z = {impl['z']}, "
                           f"zcond = {impl['zc']}", None))
-        if not all(self._finite(x) for x in impl["relax"] + [impl["st"]]):
-            fails.append((f"{head}: RelaxEstimator (value, gradient) = {impl['relax']}, "
-                          f"StraightThroughEstimator = {impl['st']}: not finite", None))
+        if not all(self._finite(x) for x in impl["relax"]):
+            fails.append((f"{head}: RelaxEstimator (value, gradient) = {impl['relax']}: not finite", None))
+        # StraightThroughEstimator returns the sample mean of f(H(z)) (C19_st_value), computed here from
+        # the relaxed samples; a sample whose threshold is decided by less than 1e-9 is skipped
+        ft = [F(x) for x in case["f"]]
+        if z_ok:
+            V = len(zero) if case.get("dist") == "gumbel" else 1
+            zs = [[fam.fl(x) for x in impl["z"][i: i + V]] for i in range(0, len(impl["z"]), V)]
+            clear = True
+            tot = Fr(0)
+            for row in zs:
+                if V == 1:
+                    clear = clear and abs(row[0]) > 1e-9
+                    tot += ft[1 if row[0] >= 0 else 0]
+                else:
+                    srt = sorted(row, reverse=True)
+                    clear = clear and srt[0] - srt[1] > 1e-9 * max(1.0, abs(srt[0]))
+                    tot += ft[row.index(srt[0])]
+            want = tot / len(zs)
+            if clear and not close(impl["st"], want):
+                # the specific defect: threshold(z, True) carries NaN in a class of logit -inf, and
+                # argmax takes the first NaN
+                known = self._st_nan_known(case, impl)
+                fails.append((f"{head}: StraightThroughEstimator = {impl['st']} is not the sample mean of f(H(z)) = "
+                              f"{float(want)!r} (z = {impl['z']})", SIG_STNAN if known else None))
         return fails
+
+    # ---------------------------------------------------------------- malformed constructions
+    def _impl_relaxed_ctor(self, case):
+        import torch
+        import pydrobert.torch.distributions as D
+        cls = getattr(D, case["cls"])
+        p = torch.tensor([0.25, 0.75])
+        kw = {"neither": {}, "both": {"probs": p, "logits": p.log()},
+              "scalar": {"probs": torch.tensor(0.5)}}[case["how"]]
+        try:
+            cls(**kw)
+        except ValueError:
+            return {"raised": "ValueError"}
+        except Exception as e:          # noqa: BLE001
+            return {"raised": type(e).__name__}
+        return {"raised": None}
+
+    def _req_relaxed_ctor(self, case):
+        return None
+
+    def _cmp_relaxed_ctor(self, case, impl, model):
+        return []
+
+    def _pred_relaxed_ctor(self, case, impl, model):
+        if impl["raised"] == "ValueError":
+            return []
+        return [(f"{case['cls']} constructed with {case['how']} of probs / logits: raised {impl['raised']}, "
+                 f"documented ValueError", None)]
 
     # ================================================================ bookkeeping
     def nontrivial(self, case, impl):
@@ -2021,20 +2240,36 @@ class C19(PropertyCheck):
                 tot = sum(F(x) for x in th)
                 cls = "one-hot" if any(F(x) == tot for x in th) else "has-zero" if any(F(x) == 0 for x in th) \
                     else "near-boundary" if any(F(x) / tot < Fr(1, 1000) for x in th) else "interior"
+            elif any(fam.is_ninf(x) for x in th):
+                cls = "logit=-inf"
             else:
                 sp = max(F(x) for x in th) - min(F(x) for x in th)
                 cls = "saturated" if sp >= 17 else "interior"
             t += [f"gumbel:{par}/{cls}/{case.get('dtype', 'float64')}"]
         elif k in ("relax_value", "st_value"):
-            ks = case["ks"] if k == "st_value" else [case["k"]]
-            t += [f"{k}:{'boundary' if any(x in (0, 16) for x in ks) else 'interior'}"]
+            ks = case["ks"] if "ks" in case else [case["k"]]
+            t += [f"{k}:{'boundary' if any(x in (0, 16) for x in ks) else 'interior'}",
+                  f"{k}:{case.get('param', 'probs')}/shape={case.get('shape', [len(ks)])}"]
+            if k == "relax_value":
+                t += [f"relax_value:cv={case.get('cvkind', 'smooth')}"]
+        elif k in ("bern_nd", "gumbel_nd"):
+            t += [f"{k}:{case['param']}/shape={case['shape']}", f"{k}:expand={case.get('expand')}",
+                  f"{k}:sample={case.get('sample')}", f"{k}:{case['dtype']}"]
+            if any(fam.is_ninf(x) for x in case["values"]):
+                t += [f"{k}:logit=-inf"]
         elif k == "relax_comb" and case.get("dist") == "gumbel":
             t += [f"relax_comb:gumbel/{case['param']}"]
+            if any(fam.is_ninf(x) for x in case["theta"]):
+                t += ["relax_comb:gumbel/logit=-inf"]
         elif k == "relax_comb":
             par = case.get("param", "logits")
             x = F(case.get("value", case.get("logit", "0")))
             edge = (par == "probs" and min(x, 1 - x) < Fr(1, 1000)) or (par == "logits" and abs(x) >= 17)
             t += [f"relax_comb:{par}/{'boundary' if edge else 'interior'}"]
+        if k in ("direct", "enumerate") and fam.has_ninf(case["dist"]):
+            t += [f"{k}:logit=-inf"]
+        if k in ("is", "imh") and fam.has_ninf(case["proposal"]):
+            t += [f"{k}:logit=-inf proposal"]
         if k == "direct" and _is_edge(case["dist"]):
             t += ["direct:near-boundary/" + case["dist"]["param"]]
         if k == "is" and _is_edge(case["proposal"]):
@@ -2061,8 +2296,17 @@ class C19(PropertyCheck):
             keep = [q for q in case["queries"] if q[0] == case["L"]][:1]
             for q in case["queries"]:
                 yield dict(case, queries=[q] + ([] if q[0] == case["L"] else keep))
-        if k in ("bern", "gumbel") and case.get("dtype") == "float32":
+        if k in ("bern", "gumbel", "bern_nd", "gumbel_nd") and case.get("dtype") == "float32":
             yield dict(case, dtype="float64")
+        if k in ("bern_nd", "gumbel_nd"):
+            if case.get("sample"):
+                n = self._nd_layout(case, 0 if k == "bern_nd" else 1)[2]
+                yield dict(case, sample=[], us=case["us"][:n], vs=case["vs"][:n],
+                           **({"ks": case["ks"][:n]} if k == "gumbel_nd" else {}))
+            elif case.get("expand"):
+                n = self._prod(case["shape"] if k == "bern_nd" else case["shape"][:-1])
+                yield dict(case, expand=None, us=case["us"][:n], vs=case["vs"][:n],
+                           **({"ks": case["ks"][:n]} if k == "gumbel_nd" else {}))
         if k == "bern":
             for nm in ("u", "v"):
                 if case[nm] != "1/2":
